@@ -25,7 +25,7 @@ import (
 // to locals), and the closure pass then puts the function literals back in line.
 //
 // Conditions, each checked:
-//   - the ranged expression is a package-level variable of the same package (possibly through local variables that
+//   - the ranged expression is an unexported package-level variable of the same package (possibly through local variables that
 //     are defined once from it), declared with a slice / array composite literal of struct elements;
 //   - every mention of that variable in the package is such a range expression, the initialiser of such a local, or
 //     the operand of len(): nothing can write the table or hand it to code that could;
@@ -68,8 +68,8 @@ func unrollConstTables(pkgs []*packages.Package, src func(string) []byte) (map[s
 						continue
 					}
 					o := info.Defs[vs.Names[0]]
-					if o == nil {
-						continue
+					if o == nil || o.Exported() {
+						continue // an exported table can be written by another package
 					}
 					var et types.Type
 					switch u := o.Type().Underlying().(type) {
